@@ -17,10 +17,11 @@ EXTENDS Distiller, Json, IOUtils
 Trace == ndJsonDeserialize(IOEnv.TRACE_FILE)
 
 VARIABLES l, run, grp, prop, entry, urlid, bytes,
+          docid,   \* which document this call distils (groups interleave calls on several documents)
           variant, \* C20: which of the three documents of a metamorphic triple this call distils ("" otherwise)
           mem,     \* set of [k, v]: first digest seen per key in the current group
           bad
-tvars == <<vars, l, run, grp, prop, entry, urlid, bytes, variant, mem, bad>>
+tvars == <<vars, l, run, grp, prop, entry, urlid, bytes, docid, variant, mem, bad>>
 
 Lookup(k)  == {m.v : m \in {x \in mem : x.k = k}}
 Seen(k)    == Lookup(k) # {}
@@ -30,7 +31,7 @@ IsEvent(e) == l <= Len(Trace) /\ Trace[l].ev = e /\ l' = l + 1
 Mine       == Trace[l].run = run
 
 TInit == /\ Init /\ root = "document" /\ opts = [nil |-> TRUE, log |-> 0, url |-> FALSE, skip |-> FALSE, algo |-> "prevnext"]
-         /\ l = 1 /\ run = 0 /\ grp = 0 /\ prop = "" /\ entry = "" /\ urlid = 0 /\ bytes = FALSE /\ variant = "" /\ mem = {} /\ bad = {}
+         /\ l = 1 /\ run = 0 /\ grp = 0 /\ prop = "" /\ entry = "" /\ urlid = 0 /\ bytes = FALSE /\ docid = 0 /\ variant = "" /\ mem = {} /\ bad = {}
 
 Report(names) ==
     \A name \in names : PrintT(<<"@@BAD", ToJson([run |-> run, inv |-> name, class |-> entry \o "/" \o root])>>)
@@ -39,7 +40,7 @@ TCall == /\ IsEvent("Call")
          /\ pc \in {"idle", "returned", "crashed"}
          /\ pc' = "called"
          /\ run' = Trace[l].run /\ prop' = Trace[l].prop /\ entry' = Trace[l].entry
-         /\ urlid' = Trace[l].urlid /\ bytes' = Trace[l].bytes /\ variant' = Trace[l].variant
+         /\ urlid' = Trace[l].urlid /\ bytes' = Trace[l].bytes /\ docid' = Trace[l].doc /\ variant' = Trace[l].variant
          /\ grp' = Trace[l].grp
          /\ mem' = IF Trace[l].grp = grp THEN mem ELSE {}
          /\ root' = Trace[l].root
@@ -55,7 +56,7 @@ TRootCheck ==
                  \cup (IF ok # HasElement(root) THEN {"C01_RootValidation"} ELSE {})
        IN  /\ pc' = IF ok THEN "rooted" ELSE "failed"
            /\ bad' = bad \cup b /\ Report(b)
-    /\ UNCHANGED <<root, opts, passes, flags, wc1, wc, nfilt, paginated, result, callerWrites, run, grp, prop, entry, urlid, bytes, variant, mem>>
+    /\ UNCHANGED <<root, opts, passes, flags, wc1, wc, nfilt, paginated, result, callerWrites, run, grp, prop, entry, urlid, bytes, docid, variant, mem>>
 
 TPass ==
     /\ IsEvent("Pass") /\ Mine
@@ -69,7 +70,7 @@ TPass ==
            /\ wc1' = IF n = 1 THEN Trace[l].wc ELSE wc1
            /\ pc' = "pass"
            /\ bad' = bad \cup b /\ Report(b)
-    /\ UNCHANGED <<root, opts, nfilt, paginated, result, callerWrites, run, grp, prop, entry, urlid, bytes, variant, mem>>
+    /\ UNCHANGED <<root, opts, nfilt, paginated, result, callerWrites, run, grp, prop, entry, urlid, bytes, docid, variant, mem>>
 
 TDocFilter ==
     /\ IsEvent("DocFilter") /\ Mine
@@ -80,7 +81,7 @@ TDocFilter ==
                 \cup (IF nfilt < 3 /\ Trace[l].name # FilterOrder[nfilt + 1] THEN {"C08_FilterOrder"} ELSE {})
        IN  /\ nfilt' = IF nfilt < 3 THEN nfilt + 1 ELSE nfilt
            /\ bad' = bad \cup b /\ Report(b)
-    /\ UNCHANGED <<pc, root, opts, passes, flags, wc1, wc, paginated, result, callerWrites, run, grp, prop, entry, urlid, bytes, variant, mem>>
+    /\ UNCHANGED <<pc, root, opts, passes, flags, wc1, wc, paginated, result, callerWrites, run, grp, prop, entry, urlid, bytes, docid, variant, mem>>
 
 TRendered ==
     /\ IsEvent("Rendered") /\ Mine
@@ -89,20 +90,20 @@ TRendered ==
        IN  /\ pc' = "rendered"
            /\ result' = [err |-> FALSE, wc |-> Trace[l].wc, url |-> Eff(opts).url, pagination |-> FALSE]
            /\ bad' = bad \cup b /\ Report(b)
-    /\ UNCHANGED <<root, opts, passes, flags, wc1, wc, nfilt, paginated, callerWrites, run, grp, prop, entry, urlid, bytes, variant, mem>>
+    /\ UNCHANGED <<root, opts, passes, flags, wc1, wc, nfilt, paginated, callerWrites, run, grp, prop, entry, urlid, bytes, docid, variant, mem>>
 
 TPaginated ==
     /\ IsEvent("Paginated") /\ Mine
     /\ LET b == IF ~CanPaginate(pc, opts) \/ paginated THEN {"C13_PaginationOnlyWhenAsked"} ELSE {}
        IN  /\ paginated' = TRUE
            /\ bad' = bad \cup b /\ Report(b)
-    /\ UNCHANGED <<pc, root, opts, passes, flags, wc1, wc, nfilt, result, callerWrites, run, grp, prop, entry, urlid, bytes, variant, mem>>
+    /\ UNCHANGED <<pc, root, opts, passes, flags, wc1, wc, nfilt, result, callerWrites, run, grp, prop, entry, urlid, bytes, docid, variant, mem>>
 
 \* keys of the group memory
-KExact == <<"exact", entry, opts, urlid>>
-KOpts  == <<"opts", opts, urlid>>
-KCore  == <<"core", urlid>>
-KPag   == <<"pag", urlid, Eff(opts).algo>>
+KExact == <<"exact", docid, entry, opts, urlid>>
+KOpts  == <<"opts", docid, opts, urlid>>
+KCore  == <<"core", docid, urlid>>
+KPag   == <<"pag", docid, urlid, Eff(opts).algo>>
 
 TReturn ==
     /\ IsEvent("Return") /\ Mine
@@ -146,12 +147,12 @@ TReturn ==
            /\ result' = [result EXCEPT !.err = isErr]
            /\ mem' = mem \cup {m \in add : ~Seen(m.k)}
            /\ bad' = bad \cup b /\ Report(b)
-    /\ UNCHANGED <<root, opts, passes, flags, wc1, wc, nfilt, paginated, callerWrites, run, grp, prop, entry, urlid, bytes, variant>>
+    /\ UNCHANGED <<root, opts, passes, flags, wc1, wc, nfilt, paginated, callerWrites, run, grp, prop, entry, urlid, bytes, docid, variant>>
 
 TCrash == /\ (IsEvent("Panic") \/ IsEvent("Hang")) /\ Mine
           /\ pc' = "crashed"
           /\ PrintT(<<"@@CRASH", ToJson([run |-> run, ev |-> Trace[l].ev, class |-> entry \o "/" \o root])>>)
-          /\ UNCHANGED <<root, opts, passes, flags, wc1, wc, nfilt, paginated, result, callerWrites, run, grp, prop, entry, urlid, bytes, variant, mem, bad>>
+          /\ UNCHANGED <<root, opts, passes, flags, wc1, wc, nfilt, paginated, result, callerWrites, run, grp, prop, entry, urlid, bytes, docid, variant, mem, bad>>
 
 TNext == TCall \/ TRootCheck \/ TPass \/ TDocFilter \/ TRendered \/ TPaginated \/ TReturn \/ TCrash
 TraceSpec == TInit /\ [][TNext]_tvars
